@@ -224,9 +224,53 @@ def rule_r5(ctx):
         r.ob(f, "a non-matching topic always leads to the next topic")
 
 
+# ---------------------------------------------------------------------------
+# R7: a pump asks for the next message only when it has disposed of the one in hand
+
+def rule_r7(ctx):
+    from ..core import strip_addr
+    r = ctx.rule("C05.R7", "T2", "messages of one connection are handled one at a time: a protocol's receive callback re-arms its own aio "
+                 "(nni_pipe_recv) either while it holds the protocol's lock or after the last hand-over of the message it has "
+                 "taken off that aio -- re-armed earlier and without a lock, the callback for the next message runs on another "
+                 "thread while this one is still being queued, and one publisher's messages are delivered out of order", floor=12)
+    prog = ctx.prog
+    cbs = {}
+    for (f, aioexpr, cbname, arg, site) in prog.aio_callbacks():
+        lf = last_field(strip_addr(aioexpr)) if aioexpr is not None else None
+        cbs.setdefault(cbname, set()).add(lf)
+    n = 0
+    for cbname, fields in sorted(cbs.items()):
+        fn = prog.fn(cbname)
+        if fn is None or fn.cfg_failed or "/sp/protocol/" not in "/" + fn.file:
+            continue
+        locks = [(c.b, c.i) for c in fn.calls("nni_mtx_lock")]
+        unl = {(c.b, c.i) for c in fn.calls("nni_mtx_unlock")}
+        mv = {v for v in fn.locals() if any(d is not None and any(m.get("k") == "call" and m.get("fn") == "nni_aio_get_msg" for m in walk(d))
+                                             for _, d in G.var_defs(fn, v))}
+        for R in fn.calls("nni_pipe_recv"):
+            a = strip_addr(fn.expand(R.node["args"][1])) if len(R.node["args"]) > 1 else None
+            if a is None or last_field(a) not in fields:
+                continue
+            n += 1
+            held = any((R.b, R.i) in fn.reach((l[0], l[1] + 1), blocked=lambda b, i, e: (b, i) in unl) for l in locks)
+            after = fn.reach((R.b, R.i + 1))
+            hand = [c for c in fn.calls() if (c.b, c.i) in after and c.node.get("fn") != "nni_msg_free" and any(
+                x is not None and fn.expand(x).get("k") == "var" and fn.expand(x)["n"] in mv for x in c.node["args"])]
+            if hand and not held:
+                ctx.fail(r, fn, "receive re-armed before the message in hand is disposed of", R.line,
+                         "%s calls nni_pipe_recv on its own aio at line %s, holds no lock, and hands the message on afterwards "
+                         "(%s line %s): the next message's callback can overtake this one on another thread"
+                         % (fn.name, R.line, hand[0].node["fn"], hand[0].line))
+            else:
+                r.ob(fn, "re-arm line %s %s" % (R.line, "under the protocol's lock" if held else "after the last hand-over"))
+    if n < 12:
+        raise AnalysisBroken("only %d re-arms of protocol receive aios found" % n)
+
+
 def run(ctx):
     ctx.guard(rule_r1)
     ctx.guard(rule_r2)
     ctx.guard(rule_r3)
     ctx.guard(rule_r4)
     ctx.guard(rule_r5)
+    ctx.guard(rule_r7)
